@@ -151,6 +151,12 @@ def lemma_children_count(f: 'Feature') -> bool:
 
 
 @lemma
+def lemma_children_ge_relations(f: 'Feature') -> bool:
+    """every relation has at least one child"""
+    return len(children(f)) >= len(f.relations)
+
+
+@lemma
 def lemma_leaf_iff_no_relation(f: 'Feature') -> bool:
     """every relation has at least one child: no children iff no relations"""
     return (len(children(f)) == 0) == (len(f.relations) == 0)
